@@ -28,10 +28,19 @@ pub trait LoadableAsset {
 //@ fn rustzx-core/src/host/io.rs trait LoadableAsset::read_exact nopub props C15 C16
 //@ ret r
 //@ sig
-        // total for every host `read` behaviour (short reads, zero reads, errors): terminates, no panic
-        ensures true,
+        // total for every host `read` behaviour (short reads, zero reads, errors): terminates, no panic;
+        // C16: on Ok the buffer holds exactly the next bytes of the stream, however `read` chunked them
+        ensures r is Ok ==> final(self).delivered() == old(self).delivered() + final(buf)@,
+//@ at 1 /while !buf\.is_empty\(\)/
+        let ghost fin0 = final(buf)@;
+        let ghost filled = Seq::<u8>::empty();
 //@ loop 0
+            invariant fin0 == filled + final(buf)@, fin0.len() == filled.len() + final(buf)@.len(),
+                self.delivered() == old(self).delivered() + filled,
+                filled.len() + buf@.len() == old(buf)@.len(),
             decreases buf@.len(),
+//@ at 1 /let tmp = buf;/
+                    proof { filled = filled + buf@.subrange(0, n as int); }
 //@ end
 }
 
